@@ -115,6 +115,46 @@ def build(tree):
     return ir.SymbolicDim(f"{k}({sa}, {sb})")
 
 
+def sympy_of(tree, flavour):
+    """The tree as a SymPy expression written by hand (no ir-py code involved), over symbols of a given assumption
+    flavour - the documented constructor form SymbolicDim(<sympy.Expr>)."""
+    import sympy
+
+    k = tree[0]
+    if k == "sym":
+        kw = {"plain": {}, "integer": {"integer": True}, "integer_positive": {"integer": True, "positive": True}}[flavour]
+        return sympy.Symbol(tree[1], **kw)
+    if k == "int":
+        return sympy.Integer(tree[1])
+    if k in UN:
+        a = sympy_of(tree[1], flavour)
+        if k == "neg":
+            return -a
+        if k == "floor":
+            return sympy.floor(a)
+        if k == "ceil":
+            return sympy.ceiling(a)
+        return sympy.sign(a) * sympy.floor(sympy.Abs(a))
+    a, b = sympy_of(tree[1], flavour), sympy_of(tree[2], flavour)
+    if k == "+":
+        return a + b
+    if k == "-":
+        return a - b
+    if k == "*":
+        return a * b
+    if k == "/":
+        return a / b
+    if k == "//":
+        return sympy.floor(a / b)
+    if k == "%":
+        return sympy.Mod(a, b)
+    if k == "min":
+        return sympy.Min(a, b)
+    if k == "max":
+        return sympy.Max(a, b)
+    raise KeyError(k)
+
+
 def to_fraction(res):
     """An evaluate() result (int or fully-bound SymbolicDim) as an exact Fraction."""
     if isinstance(res, int):
@@ -173,6 +213,19 @@ def check_tree(tree, syms, domain, do_simplify):
             out.append(("simplify_raises", f"{text!r}: {type(e).__name__}: {e}"[:160]))
         finally:
             signal.alarm(0)
+    # the documented constructor form: a SymbolicDim made from a hand-written SymPy expression, over symbols with
+    # and without assumptions (exact rational trees only: SymPy's own rewriting of rounding/modulo differs by flavour)
+    if all(op not in tree_key(tree) for op in ("%", "trunc")):
+        for flavour in ("plain", "integer", "integer_positive"):
+            try:
+                e = sympy_of(tree, flavour)
+                if e.is_number:
+                    continue
+                variants.append((f"from_sympy[{flavour}]", ir.SymbolicDim(e)))
+            except ZeroDivisionError:
+                continue
+            except Exception as e2:  # noqa: BLE001
+                out.append((f"construction_from_sympy_raises[{flavour}]", f"{text!r}: {type(e2).__name__}: {e2}"[:160]))
     n = skipped = 0
     used = sorted({s for s in syms if _uses(tree, s)})
     for vals in itertools.product(domain, repeat=len(used)):
